@@ -35,7 +35,7 @@ template<class Graph, class WeightMap, class CycleOutputIterator>
 typename boost::property_traits<WeightMap>::value_type approx_mcb_sva_fvs_trees_tbb(
         const Graph &g, const WeightMap &weight, std::size_t k,
         CycleOutputIterator out) {
-    typedef typename parmcb::detail::mcb_sva_fvs_trees_tbb<Graph,WeightMap,CycleOutputIterator> ExactAlgo;
+    typedef typename parmcb::detail::mcb_sva_fvs_trees_tbb<Graph,WeightMap,typename parmcb::detail::SpannerCycles<Graph>::iterator> ExactAlgo;
     parmcb::detail::BaseApproxSpannerAlgorithm<Graph, WeightMap, ExactAlgo, true> algo(g, weight, boost::get(boost::vertex_index, g), k);
     return algo.run(out);
 }
@@ -44,7 +44,7 @@ template<class Graph, class WeightMap, class CycleOutputIterator>
 typename boost::property_traits<WeightMap>::value_type approx_mcb_sva_iso_trees_tbb(
         const Graph &g, const WeightMap &weight, std::size_t k,
         CycleOutputIterator out) {
-    typedef typename parmcb::detail::mcb_sva_iso_trees_tbb<Graph,WeightMap,CycleOutputIterator> ExactAlgo;
+    typedef typename parmcb::detail::mcb_sva_iso_trees_tbb<Graph,WeightMap,typename parmcb::detail::SpannerCycles<Graph>::iterator> ExactAlgo;
     parmcb::detail::BaseApproxSpannerAlgorithm<Graph, WeightMap, ExactAlgo, true> algo(g, weight, boost::get(boost::vertex_index, g), k);
     return algo.run(out);
 }
